@@ -565,6 +565,10 @@ class LoopSpec:
     def run_for(self, I, st, env, it):
         from .interp import SymRange, BreakEx, ContinueEx
 
+        item_fn = None
+        if hasattr(it, "tpv_sym_iter"):
+            cnt, item_fn = it.tpv_sym_iter()
+            it = SymRange(0, cnt, 1)
         if not isinstance(it, SymRange):
             it_list = I.iterate(it)
             if len(it_list) > 64:
@@ -589,7 +593,7 @@ class LoopSpec:
             I.ctx.assume(z3.And(i >= 0, i < N))
             self._havoc_guard(I, st, env, None)
             self.make(I, env, Sym(i, "int"))
-            I.assign(st.target, Sym(i, "int"), env)
+            I.assign(st.target, item_fn(I, Sym(i, "int")) if item_fn else Sym(i, "int"), env)
             try:
                 I.exec_block(st.body, env)
             except ContinueEx:
